@@ -12,12 +12,14 @@ from __future__ import annotations
 import random
 
 import translate.markup_sites
+import translate.overlay_cache
 from harness import core
 from harness.core import Atom
+from harness.gen import autoesc_envways as W
 from harness.gen import autoesc_terms as T
 
 ID = "C15"
-GEN = [translate.markup_sites.gen]
+GEN = [translate.markup_sites.gen, translate.overlay_cache.gen]
 LEAN_MODULES = ["JinjaV.Props.C15"]
 LEVEL = "proof"
 TRUSTED = [
@@ -50,14 +52,20 @@ CLAIM = dict(
          "arbitrary plain context data); markup_sites_mapped (every Markup(...) call of filters/utils/runtime/ext/nodes/environment.py and "
          "every emitted code string mentioning Markup in compiler.py, READ from the source on every run, is one of the 29 sites the model "
          "has a clause for — a new site breaks the pin); select_autoescape_spec (no name -> default_for_string; otherwise only the "
-         "lower-cased name matters, an enabled-extension suffix wins, then a disabled one, then default); region_partial / region_clean "
+         "lower-cased name matters, an enabled-extension suffix wins, then a disabled one, then default); overlay_cache_fresh (READ from "
+         "environment.py: copy_cache / create_cache return None, {} or a new LRUCache, never the parent's entries, and overlay always assigns "
+         "rv.cache from one of them — a cached template carries its compile-time escaping decision and the cache key has no autoescape); "
+         "region_partial / region_clean "
          "(lexical {% autoescape %} regions decide the escaping of everything inside them PROVIDED no {% block %} tag sits in a region whose "
          "mode differs from the template-level mode; the unrestricted statement AutoescRegion.RegionStatement is refuted on the model in "
          "Findings/F20.lean). Tie: random terms with metacharacter-laden data and literals spelled through set blocks, macros, "
          "call blocks, imported macros, includes, super(), with, for, rendered under static / select_autoescape / {% autoescape true %} / "
          "runtime-decided {% autoescape flag %} and compared with the model; ALL built-in filters x receivers (str, Markup, list, dict, "
          "nested, int) x argument shapes (data-controlled), string and Markup methods, operators, scanned for raw M characters (urlize, "
-         "xmlattr, tojson judged by the C24 recognisers). Filters outside the Lean model (everything except indent, replace, join, "
+         "xmlattr, tojson judged by the C24 recognisers). Autoescaping configurations are also reached through overlays "
+         "(of fresh and of already-used parents, overlays of overlays, siblings, parents re-checked; True / select_autoescape / callable; "
+         "DictLoader / FunctionLoader; LRU, dict and no cache) with templates loaded by name (get_template, include, import, extends) and "
+         "compared with a fresh Environment of the effective options. Filters outside the Lean model (everything except indent, replace, join, "
          "format, truncate, wordwrap, escape, forceescape, and urlize/xmlattr/tojson of C24) are covered by this scan ONLY, not by proof.",
     note="Trusted: Lean kernel; the value-level model and the filter models (tied by correspondence); markupsafe. Known finding: an "
          "{% autoescape %} region does not reach into a {% block %} body written inside it (C15:autoescape-region-around-block). "
@@ -117,9 +125,11 @@ def run(ctx, res):
     sel = run_select(ctx, res, jinja2)
     reg = run_regions(ctx, res, jinja2)
     blocks = run_blocks(ctx, res, jinja2)
+    ways = run_envways(ctx, res, jinja2)
     res.coverage.update({
-        "evaluations": terms["renders"] + scan["renders"] + probe + sel + reg["renders"] + blocks["renders"],
+        "evaluations": terms["renders"] + scan["renders"] + probe + sel + reg["renders"] + blocks["renders"] + ways["renders"],
         "filter_blocks_literals_loops": blocks,
+        "environment_ways": ways,
         "regions": reg,
         "select_autoescape_cases": sel,
         "distinct_nontrivial": terms["nontrivial"] + scan["nontrivial"],
@@ -465,6 +475,42 @@ def run_blocks(ctx, res, jinja2):
     return {"renders": renders, "raised": raised, "by_kind": count, "modes": MODES, "filter_block_combinations": len(combos)}
 
 
+def run_envways(ctx, res, jinja2):
+    """autoescaping configurations reached through overlays of fresh and of already-used parents, overlays of overlays, siblings,
+    parents re-checked, with templates loaded BY NAME (get_template / include / import / extends) — harness/gen/autoesc_envways.py"""
+    rng = ctx.rng("envways")
+    scenarios = W.plan(rng, ctx.pick(60, 600))
+    data = {"x": rng.choice(["<m1>", "\"m2'", "a<m6>&b"]), "y": rng.choice(["<y1>", "' y2=\"<"])}
+    uses, reqs = [], []
+    for k, sc in enumerate(scenarios):
+        for way, i, kind, name, out, fresh in W.execute(jinja2, sc, data):
+            on = W.effective_on(kind, name)
+            uses.append((k, way, i, kind, name, out, fresh, on))
+            reqs.append([Atom("autoesc"), Atom("mfree"), out if on and not out.startswith("raised:") and T_wire_ok(out) else ""])
+    by_way, leaks, stale = {}, 0, 0
+    for (k, way, i, kind, name, out, fresh, on), rep in zip(uses, core.driver_batch(reqs)):
+        by_way[way] = by_way.get(way, 0) + 1
+        replay = {"scenario": scenarios[k], "data": data, "env_index": i, "name": name, "way": way}
+        if out.startswith("raised:") and not fresh.startswith("raised:"):
+            res.violate(f"C15:envway:raised:{way}", f"{way}: get_template({name!r}).render raised {out[:120]!r} (a fresh environment renders it)",
+                        replay, no_input=True)
+        elif on and rep[1] is not True:
+            leaks += 1
+            res.violate(f"C15:leak:envway:{way}", f"environment reached by {way} with autoescape={kind} in effect: get_template({name!r}).render("
+                        f"x={data['x']!r}, y={data['y']!r}) = {out!r} — raw markup character from data; a fresh Environment with the same options "
+                        f"renders {fresh!r}; history {scenarios[k]}", replay)
+        elif out != fresh:
+            stale += 1
+            res.violate(f"C15:envway:differs-from-fresh:{way}", f"{way}, autoescape={kind}: {name!r} renders {out!r}, a fresh environment with the "
+                        f"effective options {fresh!r} (no raw markup character where autoescaping is in effect: not a leak); history {scenarios[k]}",
+                        replay, no_input=True)
+    need = ["direct", "overlay-of-fresh-parent", "overlay-of-used-parent", "overlay-of-overlay", "parent-after-overlays"]
+    if not all(any(w.startswith(n) for w in by_way) for n in need):
+        raise core.HarnessError(f"environment histories degenerate: {by_way}")
+    return {"renders": 2 * len(uses), "scenarios": len(scenarios), "uses_by_way": by_way, "autoescape_settings": W.AUTOESCAPES,
+            "loaders": ["dict", "function"], "cache_sizes": [400, -1, 2, 0]}
+
+
 def T_wire_ok(s):
     return not any(0xD800 <= ord(c) <= 0xDFFF for c in s)
 
@@ -505,6 +551,9 @@ def replay(ctx, case):
             return {"src": src, "render": env.from_string(src).render(**dict(c["data"], flag=True))}
         except Exception as e:  # noqa
             return {"src": src, "raised": f"{type(e).__name__}: {e}"}
+    if "scenario" in c:
+        return [{"way": w, "env": i, "autoescape": k, "name": n, "render": o, "fresh": f}
+                for w, i, k, n, o, f in W.execute(jinja2, c["scenario"], c["data"])]
     if "src" in c and c.get("full"):
         env = make_env(jinja2, "static" if c["mode"] == "select" else c["mode"], {})
         try:
